@@ -56,6 +56,8 @@ impl<'a> WordParams<'a> {
 
     pub fn set_cost(&mut self, word_id: u32, cost: i16) {
         let cost_offset = word_id as usize * Self::PARAM_SIZE + 2;
+        #[cfg(sudachi_verif)]
+        crate::verif::emit_global("dict_write", serde_json::json!({"what": "set_cost", "word": word_id, "cost": cost}));
         self.data.set(cost_offset, cost)
     }
 }
